@@ -66,6 +66,14 @@ func condName(v ssa.Value) (name string, flipped bool) {
 			}
 		}
 	case *ssa.Call:
+		// strings.EqualFold(word, "const"): a comparison of the word with that constant, whatever its letter case
+		if cf := x.Call.StaticCallee(); cf != nil && cf.Pkg != nil && (cf.Pkg.Pkg.Path() == "strings" || cf.Pkg.Pkg.Path() == "bytes") && cf.Name() == "EqualFold" && len(x.Call.Args) == 2 {
+			for _, a := range x.Call.Args {
+				if str, ok := constString(a); ok {
+					return fmt.Sprintf("cmp:%q==EqualFold()", str), false
+				}
+			}
+		}
 		if n := callName(x); n != "" {
 			if purePredicates[n] && len(x.Call.Args) == 1 {
 				return "pure:" + n + "(" + canon(x.Call.Args[0]) + ")", false
@@ -880,7 +888,7 @@ func (c *C) helperSummary(fn *ssa.Function, onlyNil bool, allEdges bool, vocab [
 			}
 			mayNil := false
 			for _, v := range rr[len(rr)-1] {
-				if _, isC := v.(*ssa.Const); !isC || isNilConst(v) {
+				if _, isC := v.(*ssa.Const); (!isC && !sentinelError(v)) || isNilConst(v) {
 					mayNil = true
 				}
 			}
@@ -926,6 +934,15 @@ func (c *C) helperSummary(fn *ssa.Function, onlyNil bool, allEdges bool, vocab [
 			for f := range st {
 				if strings.HasPrefix(f, "C|") || strings.HasPrefix(f, "W|") || strings.HasPrefix(f, "OK|") || f == "SEND" {
 					exp[f] = true
+				}
+				// a comparison the obligation names literally (T|cmp:Crc==Update()): such names are made of field and
+				// callee names, not of the helper's variables, so the validation may live in a helper (checkEnvelope)
+				if strings.HasPrefix(f, "T|cmp:") || strings.HasPrefix(f, "F|cmp:") {
+					for _, v := range vocab {
+						if v == f && !strings.ContainsAny(f, "?*") && !strings.Contains(f, ":p") {
+							exp[f] = true
+						}
+					}
 				}
 			}
 			if inter == nil {
@@ -1047,4 +1064,45 @@ func (c *C) helperBoolStates(fn *ssa.Function, want bool, allEdges bool, vocab [
 		}
 	}
 	return out
+}
+
+// sentinelError: v is a load of a package-level error variable that the package initialiser sets to a fresh error
+// (var ErrCRCMismatch = errors.New(...)) and that no function assigns: it is never nil.
+func sentinelError(v ssa.Value) bool {
+	u, ok := v.(*ssa.UnOp)
+	if !ok || u.Op != token.MUL {
+		return false
+	}
+	g, ok := u.X.(*ssa.Global)
+	if !ok || g.Pkg == nil || !isErrorType(u.Type()) {
+		return false
+	}
+	inits, others := 0, 0
+	for _, m := range g.Pkg.Members {
+		f, ok := m.(*ssa.Function)
+		if !ok {
+			continue
+		}
+		fs := []*ssa.Function{f}
+		fs = append(fs, f.AnonFuncs...)
+		for _, fn := range fs {
+			for _, b := range fn.Blocks {
+				for _, in := range b.Instrs {
+					st, ok := in.(*ssa.Store)
+					if !ok || st.Addr != ssa.Value(g) {
+						continue
+					}
+					switch st.Val.(type) {
+					case *ssa.Call, *ssa.MakeInterface:
+						if fn.Name() == "init" {
+							inits++
+							continue
+						}
+					}
+					others++
+				}
+			}
+		}
+	}
+	return inits == 1 && others == 0
 }
